@@ -510,6 +510,15 @@ int main(int argc, char** argv) {
   if (mode == "one") return mode_one(argc, argv);
   if (mode == "minimize") return mode_minimize(argc, argv);
   if (mode == "replay") return mode_replay(argc, argv);
+  if (mode == "case") {
+    Engine* eng = make_engine(arg(argc, argv, "--engine"));
+    Expander ex{eng};
+    Case c = ex.expand(strtoull(arg(argc, argv, "--seed", "0").c_str(), nullptr, 10));
+    J j = J::obj();
+    j.set("case", case_to_json(c)).set("described", describe_case(eng, c));
+    emit("CASE", j);
+    return 0;
+  }
   if (mode == "config") { printf("%s\n", g_config.c_str()); return 0; }
   fprintf(stderr, "unknown mode %s\n", mode.c_str());
   return 2;
